@@ -56,6 +56,8 @@ pub enum Outcome {
     Infeasible,
     Forked(bool),
     AssumedNe,
+    /// the disequality was already a literal of the path condition (assumed or derived earlier)
+    KnownNe,
 }
 #[derive(Clone, Debug)]
 pub struct Decision {
@@ -482,7 +484,10 @@ impl Ctx {
         let label = self.label();
         for l in self.pc.iter() {
             match l {
-                Lit::Ne(x, y) if (*x == a && *y == b) || (*x == b && *y == a) => return false,
+                Lit::Ne(x, y) if (*x == a && *y == b) || (*x == b && *y == a) => {
+                    self.decisions.push(Decision { a, b, outcome: Outcome::KnownNe, label });
+                    return false;
+                }
                 Lit::Eq(x, y) if (*x == a && *y == b) || (*x == b && *y == a) => return true,
                 _ => {}
             }
